@@ -177,6 +177,46 @@ def run(out: Outcome) -> None:
         if runs[0] != runs[1]:
             out.violation(f"permutation test with random_state={rs} is not repeatable", {"random_state": rs})
         out.case({"repeatable": rs})
+    # every argument of the callback at its DEFAULT (random_state=None: fresh permutations every time) and every switch flipped (verbose=True: the progress bar
+    # branch), run end to end.  The permutations cannot be replayed for random_state=None; what is checked is what the property says of EVERY configuration: the null
+    # statistics are the detector's distance on re-splits of the pooled sample, and the p-value is the formula of the logged (observed, null) statistics.
+    import contextlib
+    import io
+    for variant, kw in (("defaults", {}), ("verbose", {"verbose": True, "random_state": 5}), ("verbose-2-jobs", {"verbose": True, "random_state": 5, "num_jobs": 2}),
+                        ("default random_state, 2 jobs", {"num_jobs": 2})):
+        refv, testv = [rng.gauss(0, 1) for _ in range(7)], [rng.gauss(0.6, 1) for _ in range(6)]
+        repv = {"variant": variant, "callback_arguments": {"num_permutations": 12, **kw}, "ref": refv, "test": testv, "kind": "callback configuration"}
+        try:
+            with contextlib.redirect_stderr(io.StringIO()), contextlib.redirect_stdout(io.StringIO()):
+                cbv = PermutationTestDistanceBased(num_permutations=12, **kw)
+                detv = EMD(callbacks=[cbv])
+                detv.fit(X=np.array(refv))
+                resv, logsv = detv.compare(X=np.array(testv))
+            lg = logsv[cbv.name]
+            nullv, pv, obsv = [float(v) for v in lg["permuted_statistics"]], float(lg["p_value"]), float(lg["observed_statistic"])
+            pooled = sorted(refv + testv)
+            if len(nullv) != 12:
+                out.violation(f"permutation callback ({variant}): {len(nullv)} null statistics for num_permutations=12", repv)
+            elif obsv != float(resv.distance):
+                out.violation(f"permutation callback ({variant}): observed statistic {obsv!r} is not the distance compare returned {float(resv.distance)!r}", repv)
+            else:
+                bv = sum(1 for v in nullv if v >= obsv)
+                fv = formulas(bv, 12, min(math.factorial(13), 1000000))
+                if not close(pv, fv["exact"], 1e-9):       # default method: auto -> exact
+                    out.violation(f"permutation callback ({variant}): p-value {pv!r} differs from its formula {fv['exact']!r} (b={bv}, m=12)", repv)
+                # a null statistic is the detector's distance on SOME split of the pooled sample into 7 and 6 values: all C(13, 7) = 1716 splits are enumerated
+                from scipy.stats import wasserstein_distance
+                pool = refv + testv
+                attainable = sorted(float(wasserstein_distance([pool[i] for i in c], [pool[i] for i in range(13) if i not in c])) for c in itertools.combinations(range(13), 7))
+                import bisect
+                for v in nullv:
+                    j = bisect.bisect_left(attainable, v)
+                    if min(abs(v - attainable[k]) for k in (max(0, j - 1), min(len(attainable) - 1, j))) > 1e-9:
+                        out.violation(f"permutation callback ({variant}): the null statistic {v!r} is not the detector's distance on any split of the pooled sample into 7 and 6 values", repv)
+                        break
+        except Exception as e:  # noqa: BLE001
+            out.violation(f"permutation callback ({variant}) cannot be run: {type(e).__name__}: {e}", repv)
+        out.case({"callback_configuration": variant})
     # ONE detector with ONE callback comparing the same batch again and again (and another batch in between): a fixed random_state means the same
     # permutations every time
     for rs in (0, 7):
